@@ -128,6 +128,7 @@ def release_port_block(claim):
 class Server:
     def __init__(self, ck, binp, runtime_config=True, pprof=True, product=None, name="srv"):
         self.ck = ck
+        self.product = product
         self.dir = os.path.join(ck.work, name)
         os.makedirs(self.dir, exist_ok=True)
         src = open(os.path.join(ck.repo, "config", "openGemini.singlenode.conf")).read()
@@ -285,6 +286,11 @@ SNAP_Q = ("SHOW DATABASES; SHOW USERS; SHOW GRANTS FOR grantee; SHOW GRANTS FOR 
 # (measurement listings come from the stores and lag behind writes: data-level effects are checked by landed_cases / seeds_present)
 
 
+# names only the administrator creates and deletes in the route matrix (its deletions complete asynchronously and are its
+# right): they are not part of the fixture the catalogue snapshot protects
+ADMIN_PRIVATE = "c19admrepo"
+
+
 def seeds_present(srv):
     """the seed points of both databases are still there (nothing was dropped or deleted)"""
     for _ in range(12):
@@ -308,8 +314,19 @@ def snapshot(srv):
         for r in j["results"]:
             rows = []
             for s in r.get("series", []) or []:
-                rows.append([s.get("name"), s.get("columns"), sorted(json.dumps(v) for v in s.get("values", []) or [])])
+                if ADMIN_PRIVATE in str(s.get("name")):
+                    continue
+                rows.append([s.get("name"), s.get("columns"),
+                             sorted(x for x in (json.dumps(v) for v in s.get("values", []) or []) if ADMIN_PRIVATE not in x)])
             res.append(rows if not r.get("error") else ["error", r.get("error")])
+        if getattr(srv, "product", None) == "logkeeper":
+            # a repository that is only MARKED deleted still shows in SHOW DATABASES; the log-store listing drops it at once
+            st2, b2 = srv.req("GET", "/api/v1/repository", None, basic_header(*ADMIN))
+            try:
+                b2 = json.dumps([x for x in json.loads(b2) if ADMIN_PRIVATE not in str(x)])
+            except ValueError:
+                pass
+            res.append(["repositories", st2, b2[:2000]])
         return json.dumps(res, sort_keys=True)
     except (ValueError, KeyError):
         return "snapshot-failed %s %s" % (st, b[:200])
